@@ -347,6 +347,9 @@ def mon_c15(h, obs):
                 names = [v.split(":")[0] for v in p["voters"]]
                 if len(set(names)) != len(names):
                     hits.append(Hit("C15/admin-voted-twice", f"{ref}: ballots {p['voters']}", detail=op))
+                if p["super"] == 1 and "adm0" not in names:
+                    # model-free: the flag that lets a special proposal conclude is only set by the super administrator's ballot
+                    hits.append(Hit("C15/super-admin-flag-without-super-admin-ballot", f"{ref}: IsSuperAdminVoted is set but the ballots are {p['voters']}", detail=op))
                 el = {e.split(":")[0] for e in p["electorate"]}
                 if any(nm not in el for nm in names):
                     hits.append(Hit("C15/ballot-of-non-elector", f"{ref}: ballots {p['voters']} electorate {sorted(el)}", detail=op))
